@@ -221,10 +221,16 @@ class MetadataGenerator:
         list_types: List[DList] = []
         dict_types: List[DDict] = []
         other_types: List[MetaData] = []
-        for item in t.types:
+        items = list(t.types)
+        while items:
+            item = items.pop(0)
             if isinstance(item, DOptional):
                 item = item.type
                 other_types.append(Null)
+            if isinstance(item, DUnion):
+                # Union hidden under Optional member (i.e. merged models): its members take part in the split too
+                items[:0] = item.types
+                continue
             if isinstance(item, dict):
                 types_to_merge.append(item)
             elif item in self.str_types_registry or item is str:
